@@ -606,8 +606,17 @@ class FnVerifier:
                             hit = True
                             if ext.event:
                                 names.add(ext.event)
-                    if not hit and (self.find_contract(last) is not None or dn.startswith("self.")):
-                        unknown = True
+                    if not hit:
+                        cc_ = self.find_contract(last)
+                        if cc_ is None and dn.startswith("self."):
+                            try:
+                                cc_ = self.find_contract(last, recv_cls=self.c.target.split("::")[1].split(".")[0])
+                            except EngineError:
+                                cc_ = None
+                        if cc_ is not None and cc_.emits is not None:
+                            names.update(cc_.emits)  # a callee under contract with a declared event frame
+                        elif cc_ is not None or dn.startswith("self."):
+                            unknown = True
         return None if unknown else names
 
     def havoc_logs(self, R, stmts, key):
@@ -696,6 +705,8 @@ class FnVerifier:
                     self.emit_log(R, ext.event, recv)
             elif li == "const":
                 self.emit_log(R, ext.event, mk_int(1))
+            elif isinstance(li, tuple) and li[0] == "const":
+                self.emit_log(R, ext.event, mk_int(li[1]))  # several externals share one ordered log, told apart by the constant
             elif li < len(args) and not args[li].is_const and not args[li].t.heap and args[li].t == self.log_type(ext.event):
                 lt = self.log_type(ext.event)
                 st = T.Seq(lt)
